@@ -150,6 +150,24 @@ func init() {
 
 var c01Kinds = []string{"string", "bytes", "reader", "scanner"}
 
+// Byte sequences that are not valid UTF-8: a byte that never occurs, a lone
+// continuation byte, truncated two- and three-byte characters, an encoded
+// surrogate, a code point beyond U+10FFFF, an overlong encoding.
+var invalidUTF8 = []string{"\xff", "\x80", "\xc3", "\xe3\x81", "\xed\xa0\x80", "\xf4\x90\x80\x80", "\xc0\xaf", "\xff\xff"}
+
+var utf8Contexts = []string{"%s", "a%sb c", "'%s'", "\"%s\"", "$%s", "${%s}", "${x%s}", "${x:-%s}", "${x#%s}", "$((%s))", "$((1 + %s))", "((%s))", "cat <<%s\nx\n%s\n", "cat <<E\n%s $x\nE\n", "cat <<'E'\n%s\nE\n",
+	"# %s\na", "\\%s", "`%s`", "$(%s)", "a=%s b", "%s=a b", ">%s", "a 2>%s", "case %s in (%s) a;; esac", "for %s in a; do b; done", "for i in %s; do b; done", "%s() { a; }", "a | %s && ! %s &", "if %s; then %s; fi", "a%s"}
+
+func invalidSources() []string {
+	var out []string
+	for _, c := range utf8Contexts {
+		for _, b := range invalidUTF8 {
+			out = append(out, strings.ReplaceAll(c, "%s", b))
+		}
+	}
+	return out
+}
+
 func c01NonTrivial(src string) bool {
 	if len(strings.Fields(src)) < 2 {
 		return false
@@ -217,6 +235,19 @@ func TestC01(t *testing.T) {
 	st.Exhaustive = true
 	st.Note("exhaustive: all strings of <= %d tokens over the %d-token alphabet, blank-separated and concatenated, source kind rotating over string / []byte / io.Reader / custom RuneScanner, each under GODEBUG panicnil=0 and panicnil=1, ParseCommands (every 7th: ParseCommand; every 5th: an environment with an empty alias table)", maxn, len(gen.TokenAlphabet))
 
+	// (i-b) byte sequences that are not valid UTF-8, in every kind of context
+	if sh == 0 {
+		k := 0
+		for _, src := range invalidSources() {
+			for _, kind := range c01Kinds {
+				run(t, wproto.Req{Op: "parse", Src: src, Kind: kind, Cmd: k%5 == 0}, false)
+				k++
+			}
+		}
+		st.ClassN("invalid_utf8_in_context", int64(k))
+		st.Note("%d invalid UTF-8 sequences in each of %d syntactic contexts, through every source kind", len(invalidUTF8), len(utf8Contexts))
+	}
+
 	// (ii) generated programs truncated at every rune; (iii) mutations; alias tables
 	n := 2500
 	if thorough() {
@@ -257,7 +288,14 @@ func TestC01(t *testing.T) {
 					rs[at] = []rune(rapid.SampledFrom(hostile).Draw(rt, "flip"))[0]
 				}
 			}
-			run(rt, wproto.Req{Op: "parse", Src: string(rs), Kind: kind, Cmd: rapid.Bool().Draw(rt, "cmd")}, true)
+			ms := string(rs)
+			for i := rapid.IntRange(0, 2).Draw(rt, "nraw"); i > 0; i-- {
+				// raw bytes, at any byte offset (this may also cut a character in two)
+				at := rapid.IntRange(0, len(ms)).Draw(rt, "rawat")
+				ms = ms[:at] + rapid.SampledFrom(invalidUTF8).Draw(rt, "raw") + ms[at:]
+				st.Class("mutated_with_invalid_utf8")
+			}
+			run(rt, wproto.Req{Op: "parse", Src: ms, Kind: kind, Cmd: rapid.Bool().Draw(rt, "cmd")}, true)
 			st.Class("mutated_programs")
 		case 2: // splice two programs
 			q := gen.Complete(gen.RapidChooser{T: rt}, o)
